@@ -25,7 +25,7 @@ CONSTANTS JmpCapacity,     \* slots in the setjmp stack (10 in UtestPlatform.cpp
 VARIABLES reg,       \* Seq([g, n, ign, after]) : group, name (sequences of characters), IGNORE_TEST?, and the plugin installations /
                      \* removals ([op, name]) made between this test and the next one while the run is going on
           script,    \* [1..Len(reg) -> [setup, body, teardown : Phase] or "unset"]; Phase = [sets : Seq([loc, val]), ev : Seq(outcome)], one outcome per repetition (the last one repeats)
-          cfg,       \* [repeat, reverse, shuffle, runIgnored, gf, nf, plugins]
+          cfg,       \* [repeat, reverse, shuffle, runIgnored, gf, nf, plugins, list]   (list: "none" or the list mode "lg" / "ln" / "ll")
           order,     \* current linked-list order of the registry: Seq of indices into reg
           rep, pos, pc, ph, k, setupOk, grpStart,
           jmp,       \* depth of the setjmp stack
@@ -100,9 +100,25 @@ Emit(e) == ev' = e
 Push == jmp' = jmp + 1       \* PlatformSpecificSetJmp: jmp_buf_index++
 Pop  == jmp' = jmp - 1       \* normal return, LongJmp, or RestoreJumpBuffer
 
+\* List modes (-lg, -ln, -ll): nothing runs; the registry is listed in its list order (before any reversing) and the runner returns 0.
+\* -lg: the group names, each once; -ln: group.name of the tests the filters select, each once; -ll: group.name.file.line of every test.
+RECURSIVE Dedup(_, _)
+Dedup(s, seen) == IF s = <<>> THEN <<>> ELSE IF Head(s) \in seen THEN Dedup(Tail(s), seen) ELSE <<Head(s)>> \o Dedup(Tail(s), seen \cup {Head(s)})
+GroupList == Dedup([i \in 1..Len(order) |-> reg[order[i]].g], {})
+NameList == Dedup([i \in 1..Len(SelectSeq(order, Selected)) |-> [g |-> reg[SelectSeq(order, Selected)[i]].g, n |-> reg[SelectSeq(order, Selected)[i]].n]], {})
+LocList == [i \in 1..Len(order) |-> [g |-> reg[order[i]].g, n |-> reg[order[i]].n, t |-> order[i], line |-> 1000 * order[i]]]
+ListItems == IF cfg.list = "lg" THEN GroupList ELSE IF cfg.list = "ln" THEN NameList ELSE LocList
+ListStart ==
+    /\ pc = "start" /\ cfg.list # "none"
+    /\ pc' = "listed" /\ Emit([op |-> "list", mode |-> cfg.list, items |-> ListItems])
+    /\ UNCHANGED <<reg, script, cfg, order, rep, pos, ph, k, setupOk, grpStart, jmp, cnt, hasFailed, accFail, accExec, exitv, ptr, table, g>>
+ListReturn ==
+    /\ pc = "listed" /\ exitv' = 0 /\ pc' = "done" /\ Emit([op |-> "ret", value |-> 0])
+    /\ UNCHANGED <<reg, script, cfg, order, rep, pos, ph, k, setupOk, grpStart, jmp, cnt, hasFailed, accFail, accExec, ptr, table, g>>
+
 \* CommandLineTestRunner::runAllTests: reverse once, then the repetition loop
 Start ==
-    /\ pc = "start"
+    /\ pc = "start" /\ cfg.list = "none"
     /\ order' = IF cfg.reverse THEN Reverse(order) ELSE order
     /\ pc' = "repBegin" /\ Silent
     /\ UNCHANGED <<reg, script, cfg, rep, pos, ph, k, setupOk, grpStart, jmp, cnt, hasFailed, accFail, accExec, exitv, ptr, table, g>>
@@ -302,7 +318,7 @@ ChooseScript(s) ==
     /\ script' = [script EXCEPT ![Cur] = s] /\ Silent
     /\ UNCHANGED <<reg, cfg, order, rep, pos, pc, ph, k, setupOk, grpStart, jmp, cnt, hasFailed, accFail, accExec, exitv, ptr, table, g>>
 
-Step == \/ Start \/ Return \/ LoopGroupStart \/ LoopNoGroupStart \/ Count \/ TestStart \/ RunIgnored \/ RunOne
+Step == \/ Start \/ ListStart \/ ListReturn \/ Return \/ LoopGroupStart \/ LoopNoGroupStart \/ Count \/ TestStart \/ RunIgnored \/ RunOne
         \/ Pre \/ Create \/ PhEnter \/ PhSet \/ PhSetFull \/ PhOk \/ PhFailCheck \/ PhThrow \/ PhReturn \/ PhUnwind
         \/ AfterRun \/ Post \/ PostErr \/ SetPtrPost \/ TestEnd \/ GroupEnd \/ NoGroupEnd \/ TestsEnded
 Next == Step \/ \E no \in UNION {[1..n -> 1..n] : n \in {Len(order)}} : RepBegin(no)
